@@ -1,6 +1,159 @@
 import YaegiVerif.Common.Sexp
-/- Line-protocol front end for C05 (glue). Placeholder until the property's model exists. -/
+import YaegiVerif.Model.Method
+import YaegiVerif.Model.MethodRun
+import YaegiVerif.Model.MethodClass
+import YaegiVerif.Spec.GoSelector
+import YaegiVerif.Generated.C05
+/- Line-protocol front end for C05 (glue, not a proof obligation).
+   TYPES = (DECL …)   DECL = (struct name (FIELD …) (METH …)) | (iface name (METH …) (embedded-index …))
+   FIELD = (name int|func|plain|emb|embptr typeindex)      METH = (name 0|1(pointer receiver) sig)
+   TY    = (named i) | (ptr i) | (anon (METH …)) | (nil) | (empty)
+   RECV  = (var x) | (addr x) | (ptrvar p) | (tmp type base) | (ifc i) | (nil)
+   run TYPES (STMT …)
+     answer: y=OUT g=OUT class=LABEL wf=0|1       OUT = line;line;…[;!panic] | !reject | -
+   sel TYPES type name
+     answer: field=PATH mowner=NAME mpath=PATH mptr=0|1 depth=N ysel=SEL gsel=SEL      PATH = i.j.k | -
+   mset TYPES type
+     answer: y=names gv=names gp=names        (methods(); method set of T; method set of *T)
+   impl TYPES type 0|1(pointer) iface
+     answer: y=0|1 g=0|1 -/
 namespace YaegiVerif.Driver.C05
-open YaegiVerif
-def handle (_args : List Sexp) : String := "unimplemented"
+open YaegiVerif YaegiVerif.Method YaegiVerif.MethodRun YaegiVerif.Spec.Selector
+
+def parseKind : String → Option FKind
+  | "int" => some .int
+  | "func" => some .func
+  | "plain" => some .plain
+  | "emb" => some .emb
+  | "embptr" => some .embPtr
+  | _ => none
+
+def parseField : Sexp → Option Field
+  | .list [.atom n, .atom k, t] => do let kk ← parseKind k; let tt ← t.nat?; some ⟨n, kk, tt⟩
+  | _ => none
+
+def parseMeth : Sexp → Option Meth
+  | .list [.atom n, p, s] => do let pp ← p.bool?; let ss ← s.nat?; some ⟨n, pp, ss⟩
+  | _ => none
+
+def parseMeths : Sexp → Option (List Meth)
+  | .list xs => xs.mapM parseMeth
+  | _ => none
+
+def parseDecl : Sexp → Option TDecl
+  | .list [.atom "struct", .atom n, .list fs, ms] => do
+    let f ← fs.mapM parseField
+    let m ← parseMeths ms
+    some (.strct n f m)
+  | .list [.atom "iface", .atom n, ms, .list es] => do
+    let m ← parseMeths ms
+    let e ← es.mapM Sexp.nat?
+    some (.iface n m e)
+  | _ => none
+
+def parseDecls : Sexp → Option Decls
+  | .list xs => xs.mapM parseDecl
+  | _ => none
+
+def parseTy : Sexp → Option TyRef
+  | .list [.atom "named", t] => t.nat?.map .named
+  | .list [.atom "ptr", t] => t.nat?.map .ptr
+  | .list [.atom "anon", ms] => (parseMeths ms).map .anon
+  | .list [.atom "nil"] => some .nil
+  | .list [.atom "empty"] => some .empty
+  | _ => none
+
+def parseRecv : Sexp → Option Recv
+  | .list [.atom "var", .atom x] => some (.var x)
+  | .list [.atom "addr", .atom x] => some (.addr x)
+  | .list [.atom "ptrvar", .atom x] => some (.ptrvar x)
+  | .list [.atom "ifc", .atom x] => some (.ifc x)
+  | .list [.atom "tmp", t, b] => do let tt ← t.nat?; let bb ← b.int?; some (.tmp tt bb)
+  | .list [.atom "nil"] => some .nil
+  | _ => none
+
+def parseStmt : Sexp → Option Stmt
+  | .list [.atom "var", .atom x, t, b] => do let tt ← t.nat?; let bb ← b.int?; some (.var x tt bb)
+  | .list [.atom "ptr", .atom x, .atom y] => some (.ptr x y)
+  | .list [.atom "bump", .atom y] => some (.bump y)
+  | .list [.atom "dump", .atom y] => some (.dump y)
+  | .list [.atom "call", r, .atom m] => do let rr ← parseRecv r; some (.call rr m)
+  | .list [.atom "mval", .atom x, r, .atom m] => do let rr ← parseRecv r; some (.mval x rr m)
+  | .list [.atom "callf", .atom x] => some (.callf x)
+  | .list [.atom "mexpr", t, p, .atom m, .atom y] => do let tt ← t.nat?; let pp ← p.bool?; some (.mexpr tt pp m y)
+  | .list [.atom "iface", .atom x, i, r] => do
+    let ii ← i.int?
+    let rr ← parseRecv r
+    some (.iface x (if ii < 0 then none else some ii.toNat) rr)
+  | .list [.atom "assert", .atom x, .atom y, ty, two, .atom m] => do
+    let t ← parseTy ty
+    let tw ← two.bool?
+    some (.assert x y t tw m)
+  | .list [.atom "tswitch", .atom y, b, .list cs] => do
+    let bb ← b.bool?
+    let cc ← cs.mapM (fun c => match c with | .list ts => ts.mapM parseTy | _ => none)
+    some (.tswitch y bb cc)
+  | .list [.atom "host", .atom f, _] => some (.host f "")
+  | _ => none
+
+def showOut : Outcome → String
+  | .reject => "!reject"
+  | .ran out p =>
+    let ls := out.map (fun l => ",".intercalate l) ++ (if p then ["!panic"] else [])
+    if ls.isEmpty then "-" else ";".intercalate ls
+
+def showPath (p : List Nat) : String := if p.isEmpty then "-" else ".".intercalate (p.map toString)
+
+def showSel (D : Decls) : Sel → String
+  | .field h => s!"field:{typeName D h.owner}:{showPath h.path}"
+  | .method h => s!"method:{typeName D h.owner}:{showPath h.path}"
+  | .ambiguous => "ambiguous"
+  | .undefined => "undefined"
+
+def showNames (l : List String) : String := if l.isEmpty then "-" else ",".intercalate l
+
+/-- insertion sort of names (the hook returns sorted names) -/
+def insertName (x : String) : List String → List String
+  | [] => [x]
+  | y :: ys => if x < y then x :: y :: ys else if x == y then y :: ys else y :: insertName x ys
+
+def sortNames (l : List String) : List String := l.foldl (fun acc x => insertName x acc) []
+
+def b01 (b : Bool) : String := if b then "1" else "0"
+
+def handle (args : List Sexp) : String :=
+  let F := Generated.C05.facts
+  match args with
+  | [.atom "run", ts, .list ss] =>
+    (match parseDecls ts, ss.mapM parseStmt with
+     | some D, some prog =>
+       s!"y={showOut (run .yaegi F D prog)} g={showOut (run .go F D prog)} class={MethodClass.classify F D prog} wf={b01 (decide (WF D))}"
+     | _, _ => "bad-op")
+  | [.atom "sel", ts, t, .atom x] =>
+    (match parseDecls ts, t.nat? with
+     | some D, some tt =>
+       let f := lookupFieldY F D tt x
+       let m := lookupMethodY D tt x
+       let fs := match f with | some h => showPath h.path | none => "-"
+       let (mo, mp, mptr) := match m with
+         | some h => (typeName D h.owner, showPath h.path, b01 h.meth.ptr)
+         | none => ("-", "-", "0")
+       let d := match methodDepthY D tt x with | some d => toString d | none => "-1"
+       s!"field={fs} mowner={mo} mpath={mp} mptr={mptr} depth={d} ysel={showSel D (selectY F D tt x)} gsel={showSel D (select D tt x)}"
+     | _, _ => "bad-op")
+  | [.atom "mset", ts, t] =>
+    (match parseDecls ts, t.nat? with
+     | some D, some tt =>
+       let y := sortNames ((methodsY D tt).map (·.1))
+       let gv := sortNames ((methodSet D ⟨tt, false⟩).map (·.name))
+       let gp := sortNames ((methodSet D ⟨tt, true⟩).map (·.name))
+       s!"y={showNames y} gv={showNames gv} gp={showNames gp}"
+     | _, _ => "bad-op")
+  | [.atom "impl", ts, t, p, i] =>
+    (match parseDecls ts, t.nat?, p.bool?, i.nat? with
+     | some D, some tt, some pp, some ii =>
+       s!"y={b01 (implementsY F D tt (ifaceMethodsY D ii))} g={b01 (implements D ⟨tt, pp⟩ (ifaceMethods D ii))}"
+     | _, _, _, _ => "bad-op")
+  | _ => "bad-op"
+
 end YaegiVerif.Driver.C05
